@@ -128,7 +128,52 @@ func c04Spice(rng *rand.Rand, p *gen.Project) {
 	})
 }
 
+// c04Boundary: rule values around the machine-word boundaries, in every annotation placement. Most of these
+// schemas are rejected (value out of range); the ones that are accepted must report exactly the written value.
+func c04Boundary(r *mon.Run) {
+	if r.Shard != 0 {
+		return
+	}
+	values := []string{"0", "1", "4294967295", "4294967296", "9223372036854775807", "9223372036854775808", "18446744073709551614", "18446744073709551615",
+		"18446744073709551616", "18446744073709551617", "18446744073709551618", "18446744073709551619", "18446744073709551626", "36893488147419103232",
+		"10000000000000000000", "99999999999999999999", "100000000000000000000", "340282366920938463463374607431768211456"}
+	type mk func(v string) *gen.Node
+	makers := map[string]mk{
+		"maxLength": func(v string) *gen.Node { return gen.Str("abc").R("maxLength", v) },
+		"minLength": func(v string) *gen.Node { return gen.Str("").R("minLength", v) },
+		"maxItems":  func(v string) *gen.Node { return gen.Arr(gen.Int("1")).R("maxItems", v) },
+		"minItems":  func(v string) *gen.Node { return gen.Arr().R("minItems", v) },
+		"precision": func(v string) *gen.Node { return gen.Float("1.5").R("precision", v) },
+		"max":       func(v string) *gen.Node { return gen.Int("1").R("max", v) },
+		"min":       func(v string) *gen.Node { return gen.Int("1").R("min", "-"+v) },
+	}
+	for name, m := range makers {
+		for _, v := range values {
+			for _, place := range []int{0, 1, 2} {
+				n := m(v)
+				var root *gen.Node
+				switch place {
+				case 0:
+					root = n
+				case 1:
+					root = gen.Obj(n.K("k"), gen.Int("2").K("z"))
+				default:
+					root = gen.Arr(gen.Str("pad"), n)
+				}
+				for _, l := range []gen.Layout{gen.DefaultLayout, {NL: "\n", Indent: " ", Multi: true, Spread: true, Pad: 2, AnnGap: 2}} {
+					p := &gen.Project{Root: root}
+					if c04Judge(r, p, l) {
+						r.Count("boundary_rule_values_accepted_and_compared", 1)
+						r.Nontrivial("boundary", name, v, fmt.Sprint(place), l.NL, fmt.Sprint(l.Multi))
+					}
+				}
+			}
+		}
+	}
+}
+
 func c04Run(r *mon.Run) {
+	c04Boundary(r)
 	rng := r.Rand("c04")
 	n := r.Share(r.Pick(60_000, 2_000_000))
 	accepted := 0
